@@ -1,7 +1,7 @@
 (** Coinswap proofs, part 7: a pool with outstanding pool tokens never has an
     empty reserve (so that every pro-rata and price division is well defined,
     and the share value of C01 is a ratio of positive quantities). *)
-From Coq Require Import ZArith List Bool Lia Psatz.
+From Coq Require Import ZArith List Bool Lia.
 From Canto Require Import Lib.SdkInt Lib.SdkDec Lib.SdkDecProofs Model.Coinswap
      Proofs.CoinswapBase Proofs.CoinswapEffects Proofs.CoinswapValue Proofs.CoinswapWF Proofs.CoinswapLaws
      Proofs.CoinswapHistory.
